@@ -132,6 +132,18 @@ def run(ctx):
             del L[-1]; ev.append(ev_sum(which, cur(), tot, live=L)); ev.append(ev_sum(which, cur(), tot + 1, live=L))
             L.insert(0, (7, 1)); ev.append(ev_sum(which, cur(), 1, live=L)); ev.append(ev_sum(which, cur(), tot + 2, live=L))
             traces.append(dict(ev=ev)); ctx.mark(('live', which, str(base)))
+    # huge weights that cannot take part in any answer, and targets beyond 1024 (for TLC every weight above the target is the same weight: target + 1)
+    def capped(items, s): return [[i, min(w, s + 1)] for i, w in items]
+    for items, s in (([[1, 2 ** 64], [2, 3], [3, 4]], 7), ([[1, 3], [2, 2 ** 128], [3, 4], [4, 2 ** 40]], 7), ([[1, 2 ** 70]], 5), ([[1, 5], [2, 10 ** 30]], 5)):
+        ev = []
+        for which in ('exactsum', 'dynprog'):
+            e = ev_sum(which, items, s); e['items'] = capped(items, s); e['obs'] = capped(e['obs'], s) if e['kind'] == 'list' else e['obs']; ev.append(e)
+        traces.append(dict(ev=ev)); ctx.mark(('huge weights', str(items)[:60]))
+    for items, tg in (([[1, 1024], [2, 600], [3, 424]], (1024, 2048, 1023)), ([[1, 2048], [2, 6]], (2048, 2054, 6)), ([[1, 4096], [2, 4095], [3, 1]], (4096, 8191, 4097)), ([[1, 3000], [2, 1024], [3, 1976]], (3000, 4024, 1024))):
+        ev = []
+        for s in tg:
+            ev.append(ev_sum('exactsum', items, s)); ev.append(ev_sum('dynprog', items, s))
+        traces.append(dict(ev=ev)); ctx.mark(('large targets', str(items)))
     # long lists with repeats: a long non-increasing tail that contains the pivot's value (successor / wrap-around)
     for n in ((17, 18, 20, 24, 33) if big else (18, 20, 33)):
         ev = []
